@@ -61,6 +61,9 @@ JudgeCrash(e) ==
   IN (IF e.id_res \in {"ok", "err"} THEN {} ELSE {"crash.retrieve.outcome-" \o e.id_res})
      \cup (IF e.id_res = "ok" /\ e.id_doc \notin allowed THEN {"crash.atomic"} ELSE {})
      \cup (IF e.hasother /\ (e.other_res # "ok" \/ e.other_doc # cur.other) THEN {"crash.other-key"} ELSE {})
+     \* after any crash a complete store of another (shorter) document and its retrieval work, with nothing of the
+     \* interrupted store mixed in
+     \cup (IF e.after_res = "ok" /\ e.after_doc = cur.short THEN {} ELSE {"crash.recovery"})
      \cup (IF (pred = "new" /\ ~(e.id_res = "ok" /\ e.id_doc = cur.new))
               \/ (pred = "old" /\ ~(e.id_res = "ok" /\ e.id_doc = cur.old))
               \/ (pred = "error" /\ e.id_res = "ok")
@@ -71,7 +74,7 @@ Next == /\ l <= Len(Trace)
         /\ LET e == Trace[l] IN
              CASE e.op = "CrashReset" ->
                     /\ cur' = [overwrite |-> e.overwrite, oldlen |-> e.oldlen, newlen |-> e.newlen, old |-> e.old, new |-> e.new,
-                               other |-> e.other, wtarget |-> <<>>]
+                               other |-> e.other, short |-> e.short, wtarget |-> <<>>]
                     /\ files' = IF e.overwrite THEN [n \in {"final"} |-> [of |-> "old", len |-> e.oldlen]] ELSE <<>>
                     /\ hist' = <<>>
                [] e.op = "Syscall" ->
